@@ -9,7 +9,7 @@ import ast
 
 from ..astutil import calls, find_relations, names_in, returns, text, walk_no_nested
 from ..report import Ctx
-from .common import cfg_of, flush_rule, reporter_calls
+from .common import cfg_of, flush_rule, reporter_calls, guards
 
 GROUP_DECODE = 'xmlschema.validators.groups.XsdGroup.raw_decode'
 PARTICLE = 'xmlschema.validators.particles.ParticleMixin'
@@ -417,5 +417,43 @@ def rule_f(ctx: Ctx) -> None:
                 'of the three specified disjuncts with any() for a choice and all() otherwise.')
 
 
-RULES = [rule_a, rule_b, rule_c, rule_d, rule_e, rule_f]
+def rule_g(ctx: Ctx) -> None:
+    """The visitor walks a sequence/choice group over *all* its particles, in order: the end-of-group bookkeeping of advance() recognises
+    the end of one occurrence of the group by `item is self.group.content[-1]` and sums `self.group.content[k:]`, i.e. it assumes that the
+    iterator of the group yields exactly `self.group.content`.  A filtered or reordered walk (e.g. skipping maxOccurs=0 particles) and
+    that test disagree: the last particle is never reached, the occurrence of the group is never counted and the group restarts."""
+    rule = 'C01.g'
+    c = ctx.idx.cls('xmlschema.validators.models.ModelVisitor')
+    ig = c.methods.get('iter_group')
+    adv = c.methods.get('advance')
+    if ig is None or adv is None:
+        raise AnalysisError('missing anchor ModelVisitor.iter_group / advance')
+    ctx.analysed(ig.qualname)
+    ctx.analysed(adv.qualname)
+    # what the bookkeeping assumes
+    last = [x for x in ast.walk(adv.node) if isinstance(x, ast.Compare) and len(x.ops) == 1 and isinstance(x.ops[0], ast.Is)
+            and text(x.comparators[0]) == 'self.group.content[-1]']
+    ctx.floor(rule, 'end-of-occurrence tests `item is self.group.content[-1]` in advance()', len(last), 1)
+    # what the walk yields for sequence / choice groups
+    ys = [y for y in ast.walk(ig.node) if isinstance(y, (ast.YieldFrom, ast.Yield))]
+    g = cfg_of(ctx, ig)
+    n = 0
+    for y in ys:
+        own = g.owners(y)
+        if not own:
+            continue
+        gs = guards(ctx, ig, own[0])
+        if any(t.replace('"', "'") == "self.group.model == 'all'" and lab == 'T' for t, lab in gs):
+            continue       # the all-group walk has its own bookkeeping (C01.b)
+        n += 1
+        ok = isinstance(y, ast.YieldFrom) and text(y.value) in ('self.group.content', 'iter(self.group.content)', 'self.group', 'iter(self.group)', 'self.group._group')
+        ctx.ob(rule, 'ModelVisitor.iter_group walks every particle of a sequence/choice group, in order', ig.loc(y), ok,
+               '' if ok else f'`{text(y)[:70]}` is not the content list that advance() indexes with [-1] and [k:]: when the last particle of a sequence is skipped (e.g. '
+               'maxOccurs="0") the end of an occurrence is never recognised - (a, b{0,0}) rejects <a/> and (a?, b{0,0}) accepts a a a', key='ModelVisitor.iter_group|walk')
+    ctx.floor(rule, 'walks of sequence/choice groups', n, 1)
+    ctx.explain('C01.g: agreement of two cooperating sites - the iterable that iter_group yields for sequence/choice groups is `self.group.content` itself, the list whose last '
+                'element and tail slices advance() uses to close an occurrence of the group.')
+
+
+RULES = [rule_a, rule_b, rule_c, rule_d, rule_e, rule_f, rule_g]
 THOROUGH = [thorough_a]
